@@ -50,6 +50,22 @@ func genChain(depth int, variant string) *chainProg {
 			w(fmt.Sprintf("func f%d(sel int, d int, s []int, t *T) int {", i))
 		}
 		p.faultLine[i] = map[int]int{}
+		switch variant {
+		case "lambda":
+			// a function literal earlier in the body: later faults and call sites still belong to the enclosing function
+			w("\th := func(x int) int {")
+			w("\t\treturn x + 1")
+			w("\t}")
+			w("\tt.v += h(1)")
+		case "rawstring":
+			// multi-line tokens before the fault: a raw string literal and a block comment spanning lines
+			w("\tnote := `first")
+			w("second")
+			w("third`")
+			w("\t/* a comment")
+			w("\t   over two lines */")
+			w("\tt.v += len(note)")
+		}
 		w(fmt.Sprintf("\tif d == %d {", i))
 		switch variant {
 		case "loop":
@@ -161,7 +177,7 @@ func checkC20(tier string, seed int64) int {
 	}
 	var chains []*chainProg
 	for _, d := range depths {
-		for _, v := range []string{"plain", "loop", "switch", "stmt", "multiline", "multiline2"} {
+		for _, v := range []string{"plain", "loop", "switch", "stmt", "multiline", "multiline2", "lambda", "rawstring"} {
 			chains = append(chains, genChain(d, v))
 		}
 	}
@@ -287,7 +303,7 @@ func checkC20(tier string, seed int64) int {
 	lagg.Into(c, "pos_lemma_")
 	c.Assumption("position lemma: line and column are arbitrary positive int32 values; file/function names from a fixed list; line and column must read back exactly below 65535, names always, and info must not fail for any value")
 	c.Cov("paths_compared", st.compared)
-	c.Cov("rule", fmt.Sprintf("call chains of depth %v through functions and methods, in five variants (plain, preceded by a loop, preceded by a switch, call as statement, call spread over two lines) with seven fault kinds (index, divide by zero, panic, nil struct access, nil func call, nil map write, slice bounds) planted at generator-known lines in every level; symbolic selectors decide which fault fires at which depth, so all (depth, fault) pairs of a chain are covered by one exploration; the real error text is checked in three pipelines (public Eval, in-package optimizer on, optimizer off): first line = function and line of the fault, then one line per active call innermost first with the line of the call, and on == off", depths))
+	c.Cov("rule", fmt.Sprintf("call chains of depth %v through functions and methods, in eight variants (plain, preceded by a loop, by a switch, by a function literal, by a multi-line raw string and block comment; call as statement; call spread over two lines in two ways) with seven fault kinds (index, divide by zero, panic, nil struct access, nil func call, nil map write, slice bounds) planted at generator-known lines in every level; symbolic selectors decide which fault fires at which depth, so all (depth, fault) pairs of a chain are covered by one exploration; the real error text is checked in three pipelines (public Eval, in-package optimizer on, optimizer off): first line = function and line of the fault, then one line per active call innermost first with the line of the call, and on == off", depths))
 	return c.Finish(false)
 }
 
